@@ -186,6 +186,8 @@ def run(tier: str) -> int:
     table.judge(chk, tier, "C02")
     from harness import link
     link.judge(chk, tier, "C02")
+    from harness import lineends
+    lineends.judge(chk, tier, "C02")
     for id_ in list(metas)[:: max(1, len(metas) // 5)][:5]:
         chk.sample({k: (v if k != "pass2" else "(same)" if v == metas[id_]["pass1"] else v) for k, v in metas[id_].items()})
     chk.exhaustive = False
